@@ -200,3 +200,12 @@ Theorem C01_calls_example :
   cgo_call 200 ex_prog "Gcd" [LitV (LitInt 48); LitV (LitInt 18)] = Some (LitV (LitInt 6)).
 Proof. exact ex_prog_accepted_and_returns. Qed.
 Print Assumptions C01_calls_example.
+
+(* "the value Go returns" is well defined for the fragment's Go semantics:
+   two runs that return, with whatever fuel, return the same value (and by
+   C01_result_independent_of_fuel so do two finished evaluations of the
+   emitted term) *)
+Theorem C01_calls_go_result_independent_of_fuel : forall P f args n m v w,
+  cgo_call n P f args = Some v -> cgo_call m P f args = Some w -> v = w.
+Proof. exact cgo_call_fuel_irrelevant. Qed.
+Print Assumptions C01_calls_go_result_independent_of_fuel.
